@@ -1,29 +1,31 @@
 (* Proofs/C01side2.v — the definedness side conditions of the `for` rules follow from a SYNTACTIC criterion.
 
-   Proofs/C01side.v: [XExec true] = the structured reading with the side conditions of every `for` ([is_lib]: arrayLength /
+   Proofs/C01side.v: [XExec EV true] = the structured reading with the side conditions of every `for` ([is_lib]: arrayLength /
    arrayGet still resolve to the library functions when the loop calls them; [Inv3]: after the body of an iteration the three
-   bookkeeping variables still hold array / length / index); [XExec false] = the reading WITHOUT them.  Here:
+   bookkeeping variables still hold array / length / index); [XExec EV false] = the reading WITHOUT them; EV = the evaluation
+   relation of expressions.  Here:
 
-     XExec false s st o st'  ->  no_temp_assign s = true  ->  no_shadow s = true  ->  LibOK st  ->  Res (fscope st) s
-       ->  XExec true s st o st'                                                         ([side_conditions_automatic])
+     XExec (EvQ (Keeps (protected (fscope st) s))) false s st o st'  ->  no_temp_assign s = true  ->  no_shadow s = true  ->  LibOK st
+       ->  XExec Ev true s st o st'                                                       ([side_conditions_automatic])
 
    * [no_temp_assign s] (syntactic): for every `for` of the tree, its three bookkeeping names are pairwise distinct plain names,
      the value variable is none of them, and no assignment statement of its body and no nested `for` (through ITS bookkeeping
      names, value variable or index variable) targets one of them.  (With the parser's names - __bareScriptValues<N> etc., the
      index variable being the user's when there is one - this says: the program assigns no reserved name, and a nested loop
-     does not reuse the index variable of an enclosing loop nor assign it.)
+     does not reuse the index variable of an enclosing loop nor assign it: Proofs/C01side3.v.)
    * [no_shadow s] (syntactic): nothing in the tree assigns `arrayLength` or `arrayGet`.
    * [LibOK st] (initial scope): the two names resolve to the library functions at the start (in a function: no parameter /
      local of that name and the globals bind them to the library functions).
-   * [Res fs s] - the RESIDUAL, semantic premise, about what evaluating the tree's EXPRESSIONS does to GLOBAL variables (calls
-     can reach systemGlobalSet, function definitions, includes): every expression of the tree leaves the globals `arrayLength`
-     and `arrayGet` as they are; and, ONLY AT TOP LEVEL (fs = false: the bookkeeping variables are globals), leaves the
-     bookkeeping names of the tree's loops as they are.  Inside a function (fs = true) the bookkeeping variables are locals of
-     the frame, which no callee can touch: nothing is asked about them.  ([EvKeep y e] holds trivially for an expression without
-     calls: [call_free_keeps].)
+   * the RESIDUAL, semantic premise sits in the evaluation relation [EvQ (Keeps P)]: every expression evaluation OF THE RUN leaves
+     the GLOBAL variables named in P as they are (calls inside expressions can reach systemGlobalSet, function definitions,
+     includes).  P = [protected fs s] = `arrayLength`, `arrayGet`, and ONLY AT TOP LEVEL (fs = false: the bookkeeping variables are
+     globals) the bookkeeping names of the tree's loops.  Inside a function (fs = true) the bookkeeping variables are locals of
+     the frame, which no callee can touch: nothing is asked about them.  ([Keeps P] holds for every evaluation of an expression
+     without calls: [call_free_keeps].)  It is a premise on the evaluations that occur, not on all worlds: in SOME world any callee
+     name is bound to a function that writes the global.
 
    Proof: a frame property of the reading ([frame_both]: a statement changes the binding that a name resolves to only by
-   assigning it or by an expression writing that global), then a mutual induction. *)
+   assigning it or by an evaluation writing that global), then a mutual induction. *)
 From Coq Require Import Lia List Bool ZArith.
 From BS Require Import Model.Base Model.Num Model.Arith Model.ExprParser Model.Script Model.Interp
                        Proofs.BaseFacts Proofs.InterpEq Proofs.Fuel Proofs.C08 Proofs.C01 Proofs.C01b Proofs.Blind Proofs.C01for Proofs.C01forN
